@@ -41,10 +41,10 @@ End Old.
 Definition p_v0x : str := [47; 118; 48; 47; 120].     (* /v0/x *)
 Definition p_v0s : str := [47; 118; 48; 47].           (* /v0/  *)
 Definition p_on  : str := [47; 111; 110].              (* /on   *)
-Definition none_meta : pmeta := {| enabled_by := None; depends := None; default_depends := None |}.
+Definition none_meta : pmeta := {| enabled_by := None; depends := None; default_depends := None; port_name := [] |}.
 Definition apropos_ex (p : str) : option pmeta :=
   if str_eqb p p_v0x then Some none_meta
-  else if str_eqb p p_v0s then Some {| enabled_by := Some [111; 110]; depends := None; default_depends := None |}
+  else if str_eqb p p_v0s then Some {| enabled_by := Some [111; 110]; depends := None; default_depends := None; port_name := [] |}
   else if str_eqb p p_on then Some none_meta
   else None.
 
@@ -109,8 +109,8 @@ End Old2.
 Definition p_d  : str := [47; 100; 47].            (* /d/  *)
 Definition p_dp : str := [47; 100; 47; 112].       (* /d/p *)
 Definition apropos_ex2 (p : str) : option pmeta :=
-  if str_eqb p p_d then Some {| enabled_by := Some [112]; depends := None; default_depends := None |}
-  else if str_eqb p p_dp then Some {| enabled_by := None; depends := Some [113; 44]; default_depends := None |}
+  if str_eqb p p_d then Some {| enabled_by := Some [112]; depends := None; default_depends := None; port_name := [] |}
+  else if str_eqb p p_dp then Some {| enabled_by := None; depends := Some [113; 44]; default_depends := None; port_name := [] |}
   else None.
 
 Theorem trailing_comma_entry_before_fix_refuted :
@@ -163,7 +163,7 @@ Definition p_son : str := [47; 115; 47; 111; 110].       (* /s/on *)
 Definition p_sx  : str := [47; 115; 47; 120].            (* /s/x  *)
 Definition p_sp  : str := [47; 115; 47; 112].            (* /s/p  *)
 Definition apropos_ex3 (p : str) : option pmeta :=
-  if str_eqb p p_s then Some {| enabled_by := Some [115; 47; 111; 110]; depends := None; default_depends := None |}
+  if str_eqb p p_s then Some {| enabled_by := Some [115; 47; 111; 110]; depends := None; default_depends := None; port_name := [] |}
   else if str_eqb p p_son then Some none_meta
   else if str_eqb p p_sx then Some none_meta
   else None.
@@ -184,8 +184,8 @@ Proof. repeat split; vm_compute; reflexivity. Qed.
    order is wrong for one of the two, and without lines for them the scan - also
    the fixed one - does not end.  C13_topo excludes it ([pushes = Some _], [ranked]). *)
 Definition apropos_ex4 (p : str) : option pmeta :=
-  if str_eqb p p_s then Some {| enabled_by := Some [115; 47; 111; 110]; depends := None; default_depends := None |}
-  else if str_eqb p p_son then Some {| enabled_by := None; depends := Some [112; 44]; default_depends := None |}
+  if str_eqb p p_s then Some {| enabled_by := Some [115; 47; 111; 110]; depends := None; default_depends := None; port_name := [] |}
+  else if str_eqb p p_son then Some {| enabled_by := None; depends := Some [112; 44]; default_depends := None; port_name := [] |}
   else if str_eqb p p_sp then Some none_meta
   else if str_eqb p p_sx then Some none_meta
   else None.
@@ -195,4 +195,120 @@ Theorem cyclic_metadata_scan_does_not_end :
   (* with lines for both ports of the cycle the scan ends and each waits for the other *)
   scan_deps apropos_ex4 [p_son; p_sp] 200 p_son p_son = Some [p_sp] /\
   scan_deps apropos_ex4 [p_son; p_sp] 200 p_sp p_sp = Some [p_son].
+Proof. repeat split; vm_compute; reflexivity. Qed.
+
+(* ---- fifth witness (stage 5): before fix 8301891 the scan read the metadata of
+   the port and of its parents ("name/") only.  A directory that is enabled as a
+   whole by one of its own ports - rSelf(.., rEnabledBy(on)): the metadata sits
+   on the directory's "self:" port - gave no edge: "/s/x" could be applied
+   before "/s/on".  [scan_deps_old4] is the loop without the second lookup. *)
+Section Old4.
+  Variable apropos : str -> option pmeta.
+  Variable keys : list str.
+  Fixpoint scan_deps_old4 (fuel : nat) (orig cur : str) : option (list str) :=
+    match fuel with
+    | O => None
+    | S f =>
+        fold_left
+          (fun acc (ic : bool * str) =>
+             let c := snd ic in
+             match apropos (if fst ic then c ++ [slash] else c) with
+             | None => acc
+             | Some m =>
+                 fold_left
+                   (fun acc e =>
+                      match acc, rel2abs e c with
+                      | Some l, Some a =>
+                          if str_eqb a orig || str_eqb a cur then Some l
+                          else if has_key keys a then Some (l ++ [a])
+                          else match scan_deps_old4 f orig a with
+                               | Some l' => Some (l ++ l')
+                               | None => None
+                               end
+                      | _, _ => None
+                      end)
+                   (dep_values m) acc
+             end)
+          (flagged (ancestors cur)) (Some [])
+    end.
+End Old4.
+
+Definition p_sself : str := p_s ++ self_name.                       (* /s/self: *)
+Definition p_ssubx : str := p_s ++ [116; 47; 120].                   (* /s/t/x   *)
+Definition apropos_ex5 (p : str) : option pmeta :=
+  if str_eqb p p_sself then Some {| enabled_by := Some [111; 110]; depends := None; default_depends := None; port_name := [] |}
+  else if str_eqb p p_s then Some none_meta
+  else if str_eqb p p_son then Some none_meta
+  else if str_eqb p p_sx then Some none_meta
+  else if str_eqb p p_ssubx then Some none_meta
+  else None.
+
+Theorem rself_switch_before_fix_refuted :
+  (* the old scan: no edge for the ports of the directory, at any depth *)
+  scan_deps_old4 apropos_ex5 [p_son; p_sx; p_ssubx] 60 p_sx p_sx = Some [] /\
+  scan_deps_old4 apropos_ex5 [p_son; p_sx; p_ssubx] 60 p_ssubx p_ssubx = Some [] /\
+  (* the fixed scan: both wait for the switch, the switch does not wait for itself *)
+  scan_deps apropos_ex5 [p_son; p_sx; p_ssubx] 60 p_sx p_sx = Some [p_son] /\
+  scan_deps apropos_ex5 [p_son; p_sx; p_ssubx] 60 p_ssubx p_ssubx = Some [p_son] /\
+  scan_deps apropos_ex5 [p_son; p_sx; p_ssubx] 60 p_son p_son = Some [].
+Proof. repeat split; vm_compute; reflexivity. Qed.
+
+(* ---- sixth witness (stage 5): before fix fb0c466 every entry was resolved beside the
+   port (rel2abs(entry, cur)).  An entry that names a port INSIDE an ENUMERATED
+   sub-tree - "a#3/on" on the port "a#3/" - became the literal "/a#3/on", an
+   address no message has: "/a1/on" was not ordered before "/a1/x".
+   [scan_deps_old5] is the loop with rel2abs in place of resolve_entry. *)
+Section Old5.
+  Variable apropos : str -> option pmeta.
+  Variable keys : list str.
+  Fixpoint scan_deps_old5 (fuel : nat) (orig cur : str) : option (list str) :=
+    match fuel with
+    | O => None
+    | S f =>
+        fold_left
+          (fun acc (lc : lookup) =>
+             let c := lk_base lc in
+             match apropos (lk_path lc) with
+             | None => acc
+             | Some m =>
+                 fold_left
+                   (fun acc e =>
+                      match acc, rel2abs e c with
+                      | Some l, Some a =>
+                          if str_eqb a orig || str_eqb a cur then Some l
+                          else if has_key keys a then Some (l ++ [a])
+                          else match scan_deps_old5 f orig a with
+                               | Some l' => Some (l ++ l')
+                               | None => None
+                               end
+                      | _, _ => None
+                      end)
+                   (dep_values m) acc
+             end)
+          (lookups cur) (Some [])
+    end.
+End Old5.
+
+Definition p_a1   : str := [47; 97; 49; 47].                    (* /a1/    *)
+Definition p_a1on : str := p_a1 ++ [111; 110].                  (* /a1/on  *)
+Definition p_a1x  : str := p_a1 ++ [120].                       (* /a1/x   *)
+Definition p_a1tx : str := p_a1 ++ [116; 47; 120].              (* /a1/t/x *)
+Definition apropos_ex6 (p : str) : option pmeta :=
+  if str_eqb p p_a1 then Some {| enabled_by := Some [97; 35; 51; 47; 111; 110]; depends := None;
+                                 default_depends := None; port_name := [97; 35; 51; 47] |}   (* "a#3/" enabled by "a#3/on" *)
+  else if str_eqb p p_a1on then Some none_meta
+  else if str_eqb p p_a1x then Some none_meta
+  else if str_eqb p p_a1tx then Some none_meta
+  else None.
+
+Theorem enumerated_inner_switch_before_fix_refuted :
+  (* the old scan: no edge *)
+  scan_deps_old5 apropos_ex6 [p_a1on; p_a1x; p_a1tx] 60 p_a1x p_a1x = Some [] /\
+  scan_deps_old5 apropos_ex6 [p_a1on; p_a1x; p_a1tx] 60 p_a1tx p_a1tx = Some [] /\
+  (* the fixed scan: the lines below "/a1/" wait for "/a1/on", which does not wait for itself *)
+  scan_deps apropos_ex6 [p_a1on; p_a1x; p_a1tx] 60 p_a1x p_a1x = Some [p_a1on] /\
+  scan_deps apropos_ex6 [p_a1on; p_a1x; p_a1tx] 60 p_a1tx p_a1tx = Some [p_a1on] /\
+  scan_deps apropos_ex6 [p_a1on; p_a1x; p_a1tx] 60 p_a1on p_a1on = Some [] /\
+  (* the plain form resolves as before: "s/on" on "s/" *)
+  resolve_entry true [115; 47] [115; 47; 111; 110] [47; 115] = rel2abs [115; 47; 111; 110] [47; 115].
 Proof. repeat split; vm_compute; reflexivity. Qed.
